@@ -101,6 +101,7 @@ func runC13(c *engine.Ctx, tier string) {
 	// (4) addressing
 	addressing(c, sp, err)
 	getTargetPrecedence(c)
+	deleteLandsOnNamedPath(c)
 	targetResolution(c)
 	operationChecks(c)
 	transactionBuilt(c)
@@ -1108,5 +1109,61 @@ func getTargetPrecedence(c *engine.Ctx) {
 		} else {
 			o.Undecided(root, "anchor not found: the own target of a request path is not used in "+root)
 		}
+	}
+}
+
+// deleteLandsOnNamedPath: C13.17 (seed C13-r41). doDelete records the path the request names. The one licensed
+// widening — a key leaf addressed directly is recorded as its list entry — needs the model lookup to have matched
+// the path EXACTLY: for a container the lookup answers with "something beneath the path", and when that is a key
+// leaf an unguarded cut records the parent of the named node.
+func deleteLandsOnNamedPath(c *engine.Ctx) {
+	o := c.Custom("C13.17", "K-guard(custom)", "doDelete: a recorded delete path that is a cut of the named path (path[:LastIndex(path, \"/\")]) ⇐ FindPathFromModel matched exactly ∧ the matched model path is a key ∧ the path does not end in ']'; every other recorded path is the named path itself",
+		"each operation lands on exactly the target and path so named")
+	defer o.Done(2)
+	ps, err := c.A.PathsOpt(pkgNbGnmi, engine.PathOpts{Roots: []string{".Server.doDelete"}, NoInline: true})
+	if err != nil {
+		o.Undecided("doDelete", err.Error())
+		return
+	}
+	cut, whole := 0, 0
+	for _, p := range ps {
+		for i := range p.Events {
+			e := &p.Events[i]
+			if e.Kind != engine.EvWrite || e.Field != "northbound/gnmi/v2.targetInfo.removes" || !strings.HasPrefix(e.RHS, "append(") {
+				continue
+			}
+			o.Eval(1)
+			if !strings.Contains(e.RHS, "[:strings.LastIndex(") {
+				whole++
+				continue
+			}
+			cut++
+			exact, isKey, noBracket := false, false, false
+			for _, l := range engine.CondsBefore(p, i) {
+				if l.R != "true" {
+					continue
+				}
+				switch {
+				case strings.HasPrefix(l.L, "utils/path.FindPathFromModel(") && strings.HasSuffix(l.L, ")") && l.Mask == 2:
+					exact = true
+				case strings.HasPrefix(l.L, "utils/path.FindPathFromModel(") && strings.HasSuffix(l.L, ".IsAKey") && l.Mask == 2:
+					isKey = true
+				case strings.HasPrefix(l.L, "strings.HasSuffix(") && strings.HasSuffix(l.L, `,"]")`) && l.Mask == 5:
+					noBracket = true
+				}
+			}
+			if !exact || !isKey || !noBracket {
+				o.Fail(&engine.Violation{Key: "Server.doDelete|recorded path cut without an exact key-leaf match", Pos: c.P.Pos(e.Pos), Func: p.Root.Name(),
+					Msg: fmt.Sprintf("the delete is recorded on the parent of the named path on a path that does not establish all of: exact model match (%v), matched path is a key (%v), path does not end in ']' (%v)", exact, isKey, noBracket),
+					Found: c.RenderConds(engine.CondsBefore(p, i))})
+				return
+			}
+		}
+	}
+	if cut > 0 {
+		o.Site("doDelete: key-leaf delete recorded as its list entry, under the exact-match guard")
+	}
+	if whole > 0 {
+		o.Site("doDelete: every other delete recorded on the named path")
 	}
 }
